@@ -103,18 +103,23 @@ func (u *Universe) Render() string {
 		}
 		b.WriteString("}\n\n")
 	}
-	fmt.Fprintf(&b, "service Svc {\n  %s Call(1: %s req)\n}\n", TypeIDL(u.Root), TypeIDL(u.Root))
+	fmt.Fprintf(&b, "service Svc {\n  %s Call(1: %s req)\n", TypeIDL(u.Root), TypeIDL(u.Root))
+	for i, x := range u.Extra {
+		fmt.Fprintf(&b, "  %s M%d(1: %s req)\n", TypeIDL(x), i, TypeIDL(x))
+	}
+	b.WriteString("}\n")
 	return b.String()
 }
 
 // Compiled holds dynamicgo descriptors parsed from a rendered universe.
 type Compiled struct {
-	IDL  string
-	Svc  *thrift.ServiceDescriptor
-	Fn   *thrift.FunctionDescriptor
-	Root *thrift.TypeDescriptor // descriptor of the root type (request field 1)
-	Req  *thrift.TypeDescriptor // wrapping request struct
-	Resp *thrift.TypeDescriptor // wrapping response struct (field 0 = root)
+	IDL   string
+	Svc   *thrift.ServiceDescriptor
+	Fn    *thrift.FunctionDescriptor
+	Root  *thrift.TypeDescriptor   // descriptor of the root type (request field 1)
+	Req   *thrift.TypeDescriptor   // wrapping request struct
+	Resp  *thrift.TypeDescriptor   // wrapping response struct (field 0 = root)
+	Extra []*thrift.TypeDescriptor // descriptors of the Extra roots (methods M0, M1, ...)
 }
 
 var (
@@ -148,6 +153,19 @@ func Compile(idl string, opts thrift.Options) (*Compiled, error) {
 	}
 	if c.Root == nil {
 		return nil, fmt.Errorf("request descriptor has no field 1")
+	}
+	for i := 0; ; i++ {
+		fx, err := svc.LookupFunctionByMethod(fmt.Sprintf("M%d", i))
+		if err != nil || fx == nil {
+			break
+		}
+		var d *thrift.TypeDescriptor
+		if r := fx.Request(); r != nil && r.Struct() != nil {
+			if f := r.Struct().FieldById(1); f != nil {
+				d = f.Type()
+			}
+		}
+		c.Extra = append(c.Extra, d)
 	}
 	tcMu.Lock()
 	tcCache[key] = c
